@@ -36,6 +36,10 @@ CHECKS = {
   text="Theorems in coq/Props/C04.v: (1) on every successfully processed document, construction is insensitive to how user constructors behave on keyword arguments that do not conform to their own signature -- i.e. constructors are only ever invoked with arguments that passed the type check, on succeeding and failing loads alike (stated without an event log, as an extensional irrelevance theorem over arbitrary replacement constructors); (2) an object is built only where the declared type admits its class; (3) Any / untyped / extra positions hold plain data: strip_tags establishes `stripped`, stripped nodes construct to plain values. All for arbitrary hooks and documents.",
   note="Trusted: Coq kernel; load model tied to yatiml by the tag-injection stream (700 quick / ~17k thorough cases, both outcome directions compared); every __init__ log entry of the self-instrumenting classes is judged independently in Python; 'nothing named by the document is imported or called' is yaml.SafeLoader's contract -- observed with a canary module on sys.path and a sys.addaudithook monitor, not proved.",
   technique=TECH, design='6 C04, 9'),
+ 'C10': dict(
+  text="Theorems in coq/Props/C10.v: a node loaded as class c has exactly the hooks of savorize_order applied, in order; for single-inheritance registries savorize_order = the registered ancestor chain (root first, c last) filtered to classes defining the hook in their own body, so no other class's hook runs; under an acyclicity witness the chain has no duplicates and is strictly ordered ancestors-first; savorize sits after recognition and before attribute processing (stage equation of process); a SeasoningError from savorize makes process return RecognitionError. Sweeten (dump side) clause: covered by the tie only until the Represent model is proved (see DESIGN).",
+  note="Trusted: Coq kernel; tie is EXHAUSTIVE over chains of length <= 3 (thorough 4): every subset of classes defining _yatiml_savorize x every subset defining _yatiml_recognize x unregistered mix-in with its own hooks x target class x 5 positions: traces recorded by the generated hooks vs the property's rule computed from the live classes, vs Coq savorize_order, and load outcome vs model. The registry handed to the model holds cls.__dict__ hooks only.",
+  technique=TECH, design='6 C10'),
 }
 
 REASON_TODO = 'check not built yet (work in progress; DESIGN.md section 11 gives the build order)'
